@@ -808,6 +808,9 @@ impl Disk {
                         } else {
                             self.write_data_block_or_not(count,fimg.end(),&mut entry,buf_maybe)?;
                         }
+                        // the master block must reach the disk even if this is the last chunk of the file
+                        pack_index_ptr(&mut master_buf, index_ptr, master_count as usize);
+                        self.write_block(&master_buf,master_ptr as usize,0)?;
                         index_count += 1;
                     } else {
                         let curr = self.write_data_block_or_not(count,fimg.end(),&mut entry,buf_maybe)?;
